@@ -4,7 +4,7 @@ import ast
 import z3
 from . import model as M
 from .model import Val, ValSeq, FIN, NAN, PINF, NINF, NZERO, CLS, CLASSES
-from .engine import (Engine, SV, PyExc, Unsupported, Infeasible, PathCut, _Return, _Break, _Continue, Frame,
+from .engine import (Engine, SV, PyExc, Unsupported, Infeasible, PathCut, _Return, _Break, _Continue, Frame, is_initial_read,
                      s_int, s_bool, s_str, s_float, s_val, s_seq, s_tuple, s_ref, s_py, S_NONE, lift,
                      const_float, simp, conc_int, conc_str, conc_bool)
 
@@ -465,6 +465,12 @@ class Interp(Engine):
             # instantiated at each read as a strictly decreasing rank
             rank = z3.Function("proto_rank", z3.IntSort(), z3.IntSort())
             p.assume(z3.And(rank(o.ref) >= 0, z3.Implies(Val.is_VRef(t), z3.And(rank(Val.ref(t)) >= 0, rank(Val.ref(t)) < rank(o.ref)))))
+        if name in self.SEP_FIELDS and is_initial_read(t):
+            # A-SEP: the own-property dictionaries of an object are its own (never shared between objects or
+            # fields; discharged structurally: the only assignments to these fields create fresh dictionaries)
+            oo = z3.Function("dict_owner", z3.IntSort(), z3.IntSort())
+            of = z3.Function("dict_owner_field", z3.IntSort(), z3.IntSort())
+            p.assume(z3.Implies(Val.is_VRef(t), z3.And(oo(Val.ref(t)) == o.ref, of(Val.ref(t)) == self.SEP_FIELDS.index(name))))
         ft = self.field_types.get(f"{cn}.{name}") or self.field_types.get(name)
         if ft is None:
             real = self.ct.real.get(cn)
@@ -478,6 +484,7 @@ class Interp(Engine):
 
     known_fields: dict = {}
     optional_fields: dict = {}
+    SEP_FIELDS = ["_properties", "_getters", "_setters", "_key_order"]
 
     def has_field(self, o: SV, name: str):
         arr = self.p.heap.get(f"has.{name}")
@@ -774,12 +781,38 @@ class Interp(Engine):
             self.depth -= 1
 
     # ---- recursive spec functions over the heap (ghost) --------------------------------
-    def heap_epoch(self):
-        """identity of the current heap: recursive spec functions are uninterpreted per heap state"""
+    rec_footprint: dict = {}       # recursive ghost function -> heap fields its body reads
+
+    def heap_epoch(self, fv):
+        """identity of the part of the heap the ghost function reads: it is uninterpreted per state of its footprint"""
         p = self.p
+        name = fv.qualname
+        fp = self.rec_footprint.get(name)
+        if fp is None:
+            # learn the footprint by one dry unfolding (every recursion depth executes the same body)
+            self.rec_footprint[name] = fp = set()
+            saved = p.read_track
+            p.read_track = fp
+            prev, depth = getattr(self, "_unfolding", None), getattr(self, "_unfold_depth", 0)
+            try:
+                def dry(fv=fv):
+                    self._unfolding = fv.node
+                    self._unfold_body = fv.node
+                    self._unfold_depth = self.unfold_depth
+                    args = [s_val(p.fresh(Val, "fp")) for _ in fv.node.args.args]
+                    for a in args:
+                        p.assume(M.val_wf(a.t))
+                    return self.call_func(fv, args, {})
+                try:
+                    self.merged(dry)
+                except (PyExc, Infeasible):
+                    pass
+            finally:
+                p.read_track = saved
+                self._unfolding, self._unfold_depth = prev, depth
         # fields never written still hold their initial array H0_<field> (created lazily on first read)
         key = tuple(sorted((k, v.get_id()) for k, v in p.heap.items()
-                           if not (z3.is_const(v) and v.decl().name() == f"H0_{k}")))
+                           if k in fp and not (z3.is_const(v) and v.decl().name() == f"H0_{k}")))
         self.keepalive.extend(p.heap.values())
         ep = getattr(p, "rec_epochs", None)
         if ep is None:
@@ -792,7 +825,7 @@ class Interp(Engine):
         """the application term of a @recursive spec function at the current heap"""
         name = fv.qualname.split(":")[-1]
         boxed = [self.box(a) for a in self.flat_args(args)]
-        f = z3.Function(f"{name}!h{self.heap_epoch()}", *([Val] * len(boxed)), Val)
+        f = z3.Function(f"{name}!h{self.heap_epoch(fv)}", *([Val] * len(boxed)), Val)
         t = f(*boxed)
         self.p.uf_used.add(f"rec:{name}")
         self.p.assume(M.val_wf(t))
@@ -1231,6 +1264,11 @@ class Interp(Engine):
         k = self.loop_ordinal(fr.fn_node, s)
         qn = fr.qualname or ""
         inv = self.loop_invariants.get((qn, k)) or self.loop_invariants.get((qn.split(":", 1)[-1], k))
+        if inv is None and isinstance(s, ast.While):
+            # keyed by the text of the loop condition (robust against loops added elsewhere in a long function)
+            test = ast.unparse(s.test)
+            inv = self.loop_invariants.get((qn, test)) or self.loop_invariants.get((qn.split(":", 1)[-1], test))
+            k = test if inv is not None else k
         if inv is None:
             return None
         return lambda eng, s_, fr_: eng.loop_by_invariant(s_, fr_, inv, f"{qn.split(':')[-1]}#loop{k}")
